@@ -164,6 +164,53 @@ def ref_expand(text: str):
     return "\n".join(out), intended
 
 
+ASCII_WS = " \t\n\r\x0b\x0c\x1c\x1d\x1e\x1f"
+
+
+def _isword(c: str) -> bool:
+    return c == "_" or ("0" <= c <= "9") or ("a" <= c <= "z") or ("A" <= c <= "Z")
+
+
+def ref_tag(tag: str):
+    """Independent reading (no regex) of the tag grammar the simulator may interpret, for ASCII tags:
+    GATE(name=literal*pi, ...) with blanks around the parameters and empty parameters skipped; one final line break is
+    tolerated (Python's `$`).  Returns (0, "", {}) not a parametric tag | (1, "", {}) Fraction must raise | (2, gate, params)."""
+    t = tag[:-1] if tag.endswith("\n") else tag
+    if "\n" in t or not t.endswith(")") or "(" not in t:
+        return (0, "", {})
+    i = t.index("(")
+    gate, inner = t[:i], t[i + 1:-1]
+    if not gate or not all(_isword(c) for c in gate):
+        return (0, "", {})
+    params = {}
+    for piece in inner.split(","):
+        p = piece.strip(ASCII_WS)
+        if not p:
+            continue
+        if not p.endswith("*pi") or "=" not in p:
+            return (0, "", {})
+        name, val = p[:-3].split("=", 1)
+        body = val[1:] if val[:1] in ("+", "-") else val
+        if not name or not all(_isword(c) for c in name) or not body or any(c not in "0123456789." for c in body):
+            return (0, "", {})
+        v = dec_value(val)
+        if v is None:
+            return (1, "", {})
+        params[name] = v
+    return (2, gate, params)
+
+
+def near_miss_tags():
+    out = []
+    for base in ("R_Z(theta=0.5*pi)", "U3(theta=0.3*pi, phi=-.25*pi, lambda=+1.*pi)", "R_X(theta=1.2.3*pi)"):
+        for k in range(len(base) + 1):
+            for ch in "x *=(),.\n_1":
+                out.append(base[:k] + ch + base[k:])
+        for k in range(len(base)):
+            out.append(base[:k] + base[k + 1:])
+    return out
+
+
 def eof_in_tag(text: str) -> bool:
     """stim 1.16 never returns (memory grows until killed) when the text ends inside a `[` tag: guard"""
     last = text.split("\n")[-1]
@@ -186,6 +233,8 @@ BAD_LITS = ["1.2.3", ".", "..", "-.", "+.", "1..", ".5.", "1e-3", "--1", "+-1", 
 KEY_TAGS = ["T", "T_DAG", "R_Z(0.5)", "U3(1,2,3)", "S[T", "S_DAG[T", "I[R_X(theta=0.5*pi)",
             "I[U3(theta=1*pi, phi=2*pi, lambda=3*pi)", "a T", "a T b", " T", "T ", "[T", "T[", "a[T", "x T rec[-1",
             "R_Z(0.5) rec[-1", "a S[T", "[S[T", "T_DAGG", "XT", "T_", "_T", "R_Q(1)", "U3(1,2)", "not-a-Tgate", "T-gate",
+            "aS[T", "9S_DAG[T", "aI[R_X(theta=0.5*pi)", "aR_Z(0.5)", "aU3(1,2,3)", "aT", "Ta", "T9", "S[T]a", "-T", "T-", ".T_DAG", "(T)",
+            "x=R_Y(-.5)", "{U3(1,2,3)}", "#S[T", "*S_DAG[T", "!I[U3(theta=1*pi, phi=2*pi, lambda=3*pi)",
             "R_Z(theta=0.5*pi)", "U3(theta=0.5*pi)", "theta", "pi", "I", "S", "S_DAG"]
 PLAIN_TAGS = ["", "x", "tag", "a b c", "0.5", "p=0.1", "{}", "#", "a#b", "(x)", "=*+", "'", '"', "'''", "\\B", "a\\Cb",
               "\\n", "\\r", "a\\Bn", "\\Bx41", "[", "[[", "rec[-1", "a,b"]
@@ -366,7 +415,7 @@ def run(ctx: Ctx) -> int:
         _model_vs_python(ctx, "s2s", "shorthand_to_stim", s2s, [t for t in texts + soups if is_ascii(t)])
         printed_like = [s2s(t) for t in texts if is_ascii(t)] + [gen_soup(rng) for _ in range(300 if quick else 3000)]
         _model_vs_python(ctx, "sh", "stim_to_shorthand", sh, printed_like)
-        _model_tags(ctx, ppt, [gen_tag(rng) for _ in range(400 if quick else 4000)] + [
+        _model_tags(ctx, ppt, near_miss_tags() + [gen_tag(rng) for _ in range(400 if quick else 4000)] + [
             "R_Z(theta=0.5*pi)", "R_Z(theta=0.5*pi)\n", "R_Z(theta=1.2.3*pi)", "R_Z(theta=+*pi)", "R_Z( theta=0.5*pi , )",
             "R_Z()", "U3(theta=0.1*pi, phi=-.2*pi, lambda=+3.*pi)", "R_Z(theta=0.5*pi,theta=0.25*pi)", "R_Z(theta=.*pi, x)",
             "R_Z(x, theta=.*pi)", "FOO(a=1*pi)(b=2*pi)", "R_Z(theta=1*pi)\n\n", "R_Z(theta=1*pi\n)", "(a=1*pi)", "T", ""])
@@ -374,17 +423,26 @@ def run(ctx: Ctx) -> int:
         _model_gate_names(ctx, stim)
 
     # ------------------------------------------------------------------ B2: implementation vs independent reference
+    # which tags does the simulator interpret, and as what?  (running parse_parametric_tag vs the reference tag reader)
+    for t in dict.fromkeys(near_miss_tags() + [gen_tag(rng) for _ in range(600 if quick else 6000)]):
+        if not is_ascii(t):
+            continue
+        py, want = _py_ppt(ppt, t), ref_tag(t)
+        ctx.count(("reftag", t), nontrivial=(want[0] != 0), bucket=f"tag-grammar-{['none', 'raises', 'ok'][want[0]]}")
+        if py != want:
+            names = ["is not a parametric tag (plain identity)", "must be refused (malformed literal)", f"denotes {want[1:]}"]
+            got = ["returns None", "raises", f"returns {py[1:]}"]
+            ctx.violation(f"tag-grammar:{t[:60]}", f"I[{t!r}]: parse_parametric_tag {got[py[0]]} but the tag {names[want[0]]}",
+                          {"kind": "tag-grammar", "text": t})
+            break
     def make(text):
         expanded = s2s(text)
         if eof_in_tag(expanded):
             raise Guard()
         return tsim.Circuit(text)
 
-    outcomes = {"equal": 0, "rejected-loudly": 0, "rejected-late": 0, "altered": 0, "guard": 0}
-    accepted = []
-    for idx, text in enumerate(texts + ["R_Z(٣) 0", "R_Z(0.5) 0 # café T", "X[é T] 0"]):
-        nontriv = any(k in text for k in ("T", "R_", "U3"))
-        ctx.count(("ctor", text), nontrivial=nontriv, bucket="ctor-curated" if idx < len(curated) else "ctor-generated")
+    def classify_ctor(text):
+        """-> (outcome, detail, circuit)"""
         try:
             ref_text, intended = ref_expand(text)
             ref = None if eof_in_tag(ref_text) else stim.Circuit(ref_text).flattened()
@@ -393,35 +451,24 @@ def run(ctx: Ctx) -> int:
         try:
             c = make(text)
         except Guard:
-            outcomes["guard"] += 1
-            continue
+            return "guard", "", None
         except Exception:
-            outcomes["rejected-loudly"] += 1
-            continue
+            return "rejected-loudly", "", None
         got = c._stim_circ
         if ref is not None and got == ref:
             # every shorthand instruction must be read back by the simulator's tag parser as the intended value
-            bad = None
             tags_seen = [ins.tag for ins in got if ins.name == "I" and ins.tag]
             want_tags = [t for (t, _, _) in intended]
             for (tag, gate, params) in intended:
                 try:
                     r = ppt(tag)
                 except Exception as e:
-                    bad = f"parse_parametric_tag({tag!r}) raised {e!r} for a well-formed literal"
-                    break
+                    return "altered", f"parse_parametric_tag({tag!r}) raised {e!r} for a well-formed literal", c
                 if r is None or r[0] != gate or r[1] != params:
-                    bad = f"parse_parametric_tag({tag!r}) = {r!r}, intended ({gate!r}, {params!r})"
-                    break
-            if bad is None and not all(t in tags_seen for t in want_tags) and "REPEAT" not in text:
-                bad = f"emitted tags {tags_seen} lack intended {want_tags}"
-            if bad:
-                outcomes["altered"] += 1
-                _report_altered(ctx, "ctor", text, bad, s2s, sh)
-            else:
-                outcomes["equal"] += 1
-                accepted.append((text, c))
-            continue
+                    return "altered", f"parse_parametric_tag({tag!r}) = {r!r}, intended ({gate!r}, {params!r})", c
+            if not all(t in tags_seen for t in want_tags) and "REPEAT" not in text:
+                return "altered", f"emitted tags {tags_seen} lack intended {want_tags}", c
+            return "equal", "", c
         # accepted, but differs from the reference reading (or the reference rejects): loud later?
         late = False
         for ins in got:
@@ -431,12 +478,38 @@ def run(ctx: Ctx) -> int:
                 except ValueError:
                     late = True
         if ref is None and late:
-            outcomes["rejected-late"] += 1      # e.g. R_Z(1.2.3): accepted as text, Fraction raises when simulated
-            continue
-        outcomes["altered"] += 1
-        _report_altered(ctx, "ctor", text,
-                        f"tsim.Circuit(text) = {str(got)!r} but the text denotes {('nothing (malformed)' if ref is None else repr(str(ref)))}",
-                        s2s, sh)
+            return "rejected-late", "", c      # e.g. R_Z(1.2.3): accepted as text, Fraction raises when simulated
+        return "altered", (f"tsim.Circuit(text) = {str(got)!r} but the text denotes "
+                           f"{('nothing (malformed)' if ref is None else repr(str(ref)))}"), c
+
+    def shrink_ctor(text):
+        lines = text.split("\n")
+        changed = True
+        while changed and len(lines) > 1:
+            changed = False
+            for k in range(len(lines)):
+                cand = lines[:k] + lines[k + 1:]
+                try:
+                    if classify_ctor("\n".join(cand))[0] == "altered":
+                        lines, changed = cand, True
+                        break
+                except Exception:
+                    pass
+        return "\n".join(lines)
+
+    altered = []        # (direction, text, what)
+    outcomes = {"equal": 0, "rejected-loudly": 0, "rejected-late": 0, "altered": 0, "guard": 0}
+    accepted = []
+    for idx, text in enumerate(texts + ["R_Z(٣) 0", "R_Z(0.5) 0 # café T", "X[é T] 0"]):
+        nontriv = any(k in text for k in ("T", "R_", "U3"))
+        ctx.count(("ctor", text), nontrivial=nontriv, bucket="ctor-curated" if idx < len(curated) else "ctor-generated")
+        outcome, detail, c = classify_ctor(text)
+        outcomes[outcome] += 1
+        if outcome == "equal":
+            accepted.append((text, c))
+        elif outcome == "altered":
+            small = shrink_ctor(text)
+            altered.append(("ctor", small, classify_ctor(small)[1]))
     ctx.cov["constructor_outcomes"] = dict(outcomes)
     if accepted:
         ctx.sample({"text": accepted[0][0], "circuit": str(accepted[0][1]._stim_circ)})
@@ -489,10 +562,22 @@ def run(ctx: Ctx) -> int:
                 rt["equal"] += 1
             else:
                 rt["altered"] += 1
-                _report_altered(ctx, "roundtrip-" + kind, str(c._stim_circ),
-                                f"{'Circuit(str(c))' if kind == 'str' else 'eval(repr(c))'} = {str(c2._stim_circ)!r} but c = {str(c._stim_circ)!r} (str(c) = {printed!r})",
-                                s2s, sh)
+                altered.append(("roundtrip-" + kind, str(c._stim_circ),
+                                f"{'Circuit(str(c))' if kind == 'str' else 'eval(repr(c))'} = {str(c2._stim_circ)!r} but c = {str(c._stim_circ)!r} (str(c) = {printed!r})"))
     ctx.cov["roundtrip_outcomes"] = dict(rt)
+    # report: one violation per class of in-tag rewriting (stable keys), and the 3 shortest unclassified texts
+    unclassified = []
+    for direction, text, what in altered:
+        cls = _classify(text, s2s, sh)
+        if cls == "other" and direction != "ctor":
+            cls = _classify(sh(text), s2s, sh)
+        if cls == "other":
+            unclassified.append((direction, text, what))
+        else:
+            ctx.violation(f"altered:{cls}", f"[{direction}] silently altered: {what}", {"kind": direction, "text": text})
+    for direction, text, what in sorted(unclassified, key=lambda a: (len(a[1]), a[1]))[:3]:
+        ctx.violation(f"altered:{direction}:{text[:60]}", f"[{direction}] silently altered: {what}", {"kind": direction, "text": text})
+    ctx.cov["altered_cases_total"] = len(altered)
     ctx.cov["stim_never_returns_on_text_ending_inside_a_tag"] = (
         "guarded: texts whose last line ends inside `[` (e.g. str() of a circuit ending in X[S[T] 0 prints X[T 0) are not "
         "passed to stim 1.16 (its parser does not terminate); counted under 'guard'")
@@ -555,8 +640,21 @@ def _tag_regions(line: str):
     return (m.end(), len(line) if end < 0 else end)
 
 
+def _char_class(c: str) -> str:
+    if c == "":
+        return "tag-start"
+    if c in ASCII_WS:
+        return "blank"
+    if _isword(c):
+        return "word"
+    if c in "[]":
+        return "bracket"
+    return "punct"
+
+
 def _classify(text: str, s2s, sh) -> str:
-    """which rewriting step changed text inside a tag: stable class key of an ALTERED case"""
+    """which rewriting step changed text inside a tag, and what precedes the keyword there: stable class key of an
+    ALTERED case (the known findings are exactly: a keyword at a word start inside a tag that also contains '[')"""
     for fn, f, kws in (("stim_to_shorthand", sh, ["I[U3(theta=", "I[R_", "S_DAG[T]", "S[T]"]),
                        ("shorthand_to_stim", s2s, ["T_DAG", "U3(", "R_X(", "R_Y(", "R_Z(", "T"])):
         for line in text.split("\n"):
@@ -565,18 +663,11 @@ def _classify(text: str, s2s, sh) -> str:
                 continue
             inside = line[reg[0]:reg[1] + 1]
             for kw in kws:
-                if kw in inside:
-                    return f"{fn}:{'R_' if kw.startswith('R_') else kw}-inside-tag"
+                k = inside.find(kw)
+                if k >= 0:
+                    prev = _char_class(inside[k - 1] if k > 0 else "")
+                    return f"{fn}:{'R_' if kw.startswith('R_') else kw}-inside-tag-after-{prev}"
     return "other"
-
-
-def _report_altered(ctx, direction, text, what, s2s, sh):
-    probe = text if direction == "ctor" else text          # for round trips `text` is the printed stim circuit
-    cls = _classify(probe, s2s, sh)
-    if cls == "other" and direction != "ctor":
-        cls = _classify(sh(probe), s2s, sh)
-    key = f"altered:{cls}" if cls != "other" else f"altered:{direction}:{text[:60]}"
-    ctx.violation(key, f"[{direction}] silently altered: {what}", {"kind": direction, "text": text})
 
 
 def _model_vs_python(ctx, tag, fname, pyf, inputs):
@@ -760,6 +851,11 @@ def replay(ctx: Ctx, obj) -> int:
         print("parse_parametric_tag:", got, "wanted:", r.get("want"))
         want = r.get("want")
         return 0 if (isinstance(got, tuple) and got[0] == want[0] and {k: str(v) for k, v in got[1].items()} == want[1]) else 1
+    if kind == "tag-grammar":
+        from tsim.core.parse import parse_parametric_tag as ppt
+        py, want = _py_ppt(ppt, text), ref_tag(text)
+        print("parse_parametric_tag:", py, "reference:", want)
+        return 0 if py == want else 1
     if kind == "sem":
         try:
             tsim.Circuit(text).to_matrix()
